@@ -41,6 +41,8 @@ THEOREMS = [
     "JanetModel.Props.C08.got_in_send_order",
     "JanetModel.Props.C08.no_abandon_no_stale_no_drop",
     "JanetModel.Props.C08.per_sender_order_counterexample",
+    "JanetModel.Props.C08.per_sender_order_requeue",
+    "JanetModel.Props.C08.per_sender_order_requeue_counterexample",
     "JanetModel.Props.C08.per_thread_order_counterexample",
     "JanetModel.Props.C08.pipe_fifo",
     "JanetModel.Props.C08.runq_fifo",
@@ -79,6 +81,8 @@ CURRENT = [
     "JanetModel.Thread.Current.forward_own_sched_id",
     "JanetModel.Thread.Current.runqueue_shape",
     "JanetModel.Thread.Current.per_sender_order_current",
+    "JanetModel.Thread.Current.requeue_at_head",
+    "JanetModel.Thread.Current.per_sender_order_requeue_current",
     "JanetModel.Thread.Current.exactly_once_resumed_current",
     "JanetModel.Thread.Current.payload_codec_shape",
     "JanetModel.Thread.Current.supervisor_shape",
@@ -188,6 +192,9 @@ def run(ctx, only_replay=None):
     exe = ctx.driver()
     nseq = 400 if quick else 6000
     seqs = seqops.corpus_sequences() + [seqops.gen_sequence(ctx.rng.fork("seq%d" % i), s_after_close=bool(facts and facts["flags"].get("supervisorPushClosedSafe"))) for i in range(nseq)]
+    # family `requeue`: stale hand-off returned by the requeue branch of janet_thread_chan_cb with 2..8 later gives of the same sender queued
+    nrq = 60 if quick else 600
+    seqs += [seqops.gen_requeue_sequence(ctx.rng.fork("rqseq%d" % i)) for i in range(nrq)]
     corr_diffs, corr_lines, corr_err = [], 0, None
     seq_cov = {}
     # when the translator no longer recognises the source (facts is None) the histories are still run: the implementation-side
@@ -206,7 +213,11 @@ def run(ctx, only_replay=None):
             ctx.broken.append(broken[-1])
     # property oracle on the op sequences (implementation side, independent of the model): conservation per sequence
     seq_viol = seqops.impl_oracle_failures
-    for sv in seq_viol[:3]:
+    seq_sigs = set()
+    for sv in seq_viol:
+        if sv["sig"] in seq_sigs or len(seq_sigs) >= 6:
+            continue
+        seq_sigs.add(sv["sig"])
         ctx.violation(sv["sig"], {"kind": "opseq", "ops": sv["ops"], "observed": sv["observed"], "why": sv["why"]}, what=sv["why"])
     # ---------------------------------------------------------------- (E) direct oracle: topologies over OS threads
     shim = None
@@ -411,8 +422,10 @@ def run(ctx, only_replay=None):
         "data races / memory errors: tested only (TSan, ASan+UBSan builds over the generated topologies), not proved; the lock DISCIPLINE "
         "(every path of the ten single-channel functions releases the mutex exactly once, queues touched only under it) is certified in Lean "
         "on regenerated statement trees; ev/select's multi-lock scan (cfun_channel_choice) is outside that certificate",
-        "per_sender_order is proved only in the absence of abandoned waits (per_sender_order_partial); with abandoned waits it is false on the "
-        "implementation as well (known finding reorder-stale-reader)",
+        "per_sender_order is proved in the absence of abandoned waits, and across a REQUEUED stale hand-off (no other reader pending, no later item "
+        "taken yet, one stale hand-off outstanding: per_sender_order_requeue, needs requeueAtHead); with re-dispatch / later items already taken / "
+        "several stale hand-offs it is false on the implementation as well (known finding reorder-stale-reader); a reorder on the requeue path is "
+        "reported as reorder-requeued-item",
         "OS scheduling is perturbed (LD_PRELOAD shim at pthread_mutex_lock / write) but not enumerated",
     ])
 
